@@ -100,6 +100,12 @@ CHECKS = {
     text="Search, not proof. Every fixture file, segment window and context-free nested box is enumerated (220 cases); 4k/160k generated trees over all 54 registered box classes (208 distinct class/version/flags tuples per quick run, boundary field values, 64-bit largesize and size==0 header forms, multi-run and multi-track fragments) and 2.8k/100k edit sequences per tier.",
     note="vt/isowrite.py shares no code with dashlive and is the reference for what a well-formed box is. One open known finding (C04-K1: 64-bit creation times beyond year 9999 cannot be represented).",
     design_ref="DESIGN.md section 4, C04"),
+ "C18": dict(
+    engine="enumeration + hypothesis",
+    technique="two-sided: (accept) generated (stream, template, mode, DRM, option vector, clock) sessions of the bundled validator driven in-process through a recording HTTP adapter with an inline worker pool and a patched asyncio.sleep that advances the harness clock; oracle: terminates within a step budget and reports nothing. (detect) differential two-pass sessions with the identical clock script where exactly one response the validator really read is rewritten by an independent corruption writer (isobox/struct/lxml); oracle: >= 1 error located at the corrupted element by an lxml line-range rule independent of the validator",
+    text="Search, not proof: every (template, mode) x {default, drm=all, timeline} on the bbb fixture with every corruption kind twice (54 sweep cases, both tiers); 640/30k accept sessions and 520/25k detect sessions (3 corruptions each) per tier over fixture and synthetic streams. Catalogue: tfdt shift, mfhd sequence number, trun data_offset outside mdat, saio offset, mandatory init box removed, SegmentTimeline gap/overlap, mandatory MPD attribute removed, availabilityStartTime changed across a refresh.",
+    note=SHIMS + ". Twelve open known findings (C18-K1..K12: validator gaps and false positives, three of them rooted in recorded server findings). Not covered: multi-period routes, patch documents as corruption targets.",
+    design_ref="DESIGN.md section 4, C18"),
  "C15": dict(
     engine="enumeration + hypothesis (token sequences)",
     technique="exhaustive (operation x role x authentication) matrix and route sweep against a reference authorisation table written from the property statement, state compared through raw SQL snapshots; model-based CSRF token sequences (issue / use / reuse / cross-service / cross-session / tamper / expire under the harness clock)",
@@ -121,5 +127,5 @@ CHECKS = {
 
 }
 
-_PENDING = "check under construction in this build round; not yet registered (see DESIGN.md section 9)"
+_PENDING = "not claimed (see DESIGN.md)"
 NOT_APPLICABLE = {f"C{n:02d}": _PENDING for n in range(1, 21) if f"C{n:02d}" not in CHECKS}
